@@ -184,6 +184,34 @@ func run[E any, P fields.Ptr[E]](c *mon.Ctx, f *fields.Field[E, P]) {
 			srcB[i] = f.FromValue(rng.BigBelow(f.Modulus))
 		}
 	}
+	// long vectors: the vectorised reductions keep unreduced partial sums and fold them with a precomputed constant; an
+	// error there grows with the length and stays hidden at the lengths above
+	longLens := []int{8192, 20000, 100003}
+	if c.Thorough() {
+		longLens = append(longLens, 400000, 1 << 20)
+	}
+	for _, n := range longLens {
+		a, b := make([]E, n), make([]E, n)
+		for i := range a {
+			switch i % 4 {
+			case 0:
+				a[i], b[i] = srcA[i%len(srcA)], srcB[(i+1)%len(srcB)]
+			case 1:
+				a[i], b[i] = f.FromValue(new(big.Int).Sub(f.Modulus, big.NewInt(1))), f.FromValue(new(big.Int).Sub(f.Modulus, big.NewInt(int64(1+i%5))))
+			default:
+				a[i], b[i] = f.FromValue(rng.BigBelow(f.Modulus)), f.FromValue(rng.BigBelow(f.Modulus))
+			}
+		}
+		rec(c, fmt.Sprintf("%s/Vector.Sum/long/n%d", N, n), func() []byte { s := f.VecSum(a); return one(&s) })
+		rec(c, fmt.Sprintf("%s/Vector.InnerProduct/long/n%d", N, n), func() []byte { s := f.VecInnerProduct(a, b); return one(&s) })
+		ones := make([]E, n) // all entries q-1: the largest partial sums
+		for i := range ones {
+			ones[i] = a[1]
+		}
+		rec(c, fmt.Sprintf("%s/Vector.Sum/long-all-q-1/n%d", N, n), func() []byte { s := f.VecSum(ones); return one(&s) })
+		rec(c, fmt.Sprintf("%s/Vector.InnerProduct/long-all-q-1/n%d", N, n), func() []byte { s := f.VecInnerProduct(ones, ones); return one(&s) })
+	}
+	c.Class(N + "/long-vectors")
 	sc := els[len(els)/2]
 	for _, n := range lens {
 		for off := 0; off < 4; off++ {
